@@ -113,7 +113,10 @@ def simplify(case, v):
 class HistRun:
     """one execution of a history with an optional fault plan"""
 
-    def __init__(self, outer, backend, ops, faults=None, images=False):
+    def __init__(self, outer, backend, ops, faults=None, images=False, keep=(), resume=None):
+        self.keep = set(keep)          # (i, k) crash images to keep on disk for a resumed run
+        self.kept = {}
+        self.resume = resume           # directory of a kept crash image to start from
         self.outer = outer
         self.backend = backend
         self.ops = ops
@@ -142,6 +145,12 @@ class HistRun:
                 if self.images:
                     p = seams.sqlite_image(envx.dbpath, tmpd)
                     self.img[(i, k)] = envmod.dump_sqlite(p, full=True)
+                    if (i, k) in self.keep:
+                        # kept (the original, un-recovered files) for a run that restarts from it
+                        keepd = "/dev/shm/nrsim-c07img-%d-%d-%d-%d" % (os.getpid(), id(self) % 100000, i, k)
+                        shutil.rmtree(keepd, ignore_errors=True)
+                        seams.sqlite_image(envx.dbpath, keepd)
+                        self.kept[(i, k)] = keepd
                     shutil.rmtree(tmpd, ignore_errors=True)
             sim.sql.on_call = on_call
             for (i, k), kind in self.faults.items():
@@ -168,6 +177,11 @@ class HistRun:
                     sim.faults["lmdb_error"] += 1
                     cls = {"mapfull": lmdb.MapFullError, "disk": lmdb.DiskError}.get(kind, lmdb.Error)
                     raise cls("injected %s at %s#%d call %d" % (kind, op, i, k))
+
+        if self.resume:
+            # process restart on the files a killed process left behind
+            for f in os.listdir(self.resume):
+                shutil.copyfile(os.path.join(self.resume, f), os.path.join(envx.dir, f))
 
         async def main(_):
             await envx.open()
@@ -241,9 +255,15 @@ def run(case, sim):
     ops = case["ops"]
     viol = []
     probes = {"fault_points": 0, "kill_points": 0, "multi_effect_points": 0, "state_pre": 0,
-              "state_post": 0, "state_partial_pass": 0, "commit_boundaries": 0, "backend_" + backend: 1}
+              "state_post": 0, "state_partial_pass": 0, "resumed_from_crash_image": 0, "commit_boundaries": 0, "backend_" + backend: 1}
 
-    ref = HistRun(sim, backend, ops, images=True).go()
+    import random as _random
+    krng = _random.Random(case["errseed"] + 1)
+    keep = []
+    if backend == "sql" and not case.get("only"):
+        for _ in range(3):
+            keep.append((krng.randrange(len(ops)), krng.randrange(0, 8)))
+    ref = HistRun(sim, backend, ops, images=True, keep=keep).go()
     if ref.hang is not None:
         return {"violations": [{"cls": "hang-faultfree", "sig": "hang-faultfree|%s" % backend,
                                 "detail": {"op": ref.hang}}], "probes": probes}
@@ -298,6 +318,34 @@ def run(case, sim):
                                  "detail": {"fault": [i, -1, "kill"], "op": ops[i][0]}})
                 break
 
+    # (b') restart on a kept crash image and carry on with the rest of the history
+    without = {}
+    for (i, k), d in sorted(ref.kept.items()):
+        try:
+            c0 = canon(ref.img[(i, k)])
+            if c0 == post[i]:
+                rest, exp_final = ops[i + 1:], canon(ref.obs[-1]["post"])
+            elif c0 == pre_of(i):
+                if i not in without:
+                    wo = HistRun(sim, backend, ops[:i] + ops[i + 1:]).go()
+                    wo.base = ref.base
+                    without[i] = wo
+                rest = ops[i + 1:]
+                exp_final = canon(without[i].obs[-1]["post"]) if without[i].obs else ref.base
+            else:
+                continue          # already reported as kill-intermediate
+            if ops[i][0] in ("gc", "del") or not rest:
+                continue
+            probes["resumed_from_crash_image"] += 1
+            r = HistRun(sim, backend, rest, resume=d).go()
+            if r.hang is not None:
+                viol.append({"cls": "stuck-after-restart", "sig": "stuck-after-restart|%s|%s" % (backend, ops[i][0]),
+                             "detail": {"fault": [i, k, "kill"], "stuck_op": r.hang}})
+            elif canon(r.obs[-1]["post"]) != exp_final:
+                viol.append({"cls": "diverges-after-restart", "sig": "diverges-after-restart|%s|%s" % (backend, ops[i][0]),
+                             "detail": {"fault": [i, k, "kill"], "results": [o.get("res", [None])[:2] for o in r.obs][:6]}})
+        finally:
+            shutil.rmtree(d, ignore_errors=True)
     # (a) injected errors
     import random
     erng = random.Random(case["errseed"])
@@ -321,7 +369,6 @@ def run(case, sim):
     elif len(points) > case.get("max_points", 120):
         erng.shuffle(points)
         points = sorted(points[: case.get("max_points", 120)])
-    without = {}
     for (i, k, kind) in points:
         probes["fault_points"] += 1
         if mutating(i) >= 2:
